@@ -24,6 +24,11 @@ def MakeCustomaryToBase(a: Any, b: Any, c: Any, d: Any) -> UnaryConversionFunc:
     def ret(x: Any) -> Any:
         return (a + b * x) / (c + d * x)
 
+    if d == 0:
+        # same result for finite values, but infinite values are kept (0 * inf is nan)
+        def ret(x: Any) -> Any:  # noqa:F811
+            return (a + b * x) / c
+
     ret.__a__ = a  # type:ignore[attr-defined]
     ret.__b__ = b  # type:ignore[attr-defined]
     ret.__c__ = c  # type:ignore[attr-defined]
@@ -49,6 +54,11 @@ def MakeBaseToCustomary(a: Any, b: Any, c: Any, d: Any) -> UnaryConversionFunc:
 
     def ret(y: Any) -> Any:
         return (a - c * y) / (d * y - b)
+
+    if d == 0:
+        # same result for finite values, but infinite values are kept (0 * inf is nan)
+        def ret(y: Any) -> Any:  # noqa:F811
+            return (a - c * y) / -b
 
     ret.__a__ = a  # type:ignore[attr-defined]
     ret.__b__ = b  # type:ignore[attr-defined]
